@@ -287,7 +287,7 @@ def applySticky (w : World) (op : StickyOp) (iname : String) (who : Ident) (sess
       | _, _ => (w.setInst iname r.1, showU r.2)
 
 def apply (w : World) : Cmd → World × String
-  | .inst name i => (w.setInst name i, "ok normkey=" ++ hexOfBytes (normKey i.key))
+  | .inst name i => (w.setInst name { i with cache := [] }, "ok normkey=" ++ hexOfBytes (normKey i.key))
   | .query a => (w, a)
   | .init iname who method limit sess now env => applyInit w iname who method limit sess now env
   | .cont iname req env => applyCont w iname req env
